@@ -29,6 +29,7 @@ type Interp struct {
 	methCache map[methKey]*ssa.Function
 	implCache map[implKey]bool
 	intrCache map[*ssa.Function]Intrinsic
+	stubs     map[string]*ssa.Function // harness-level stubs (//verif:stub)
 	natives   map[string]func(*Interp, *FuncV, []Value) Value
 	rtErrType types.Type
 
@@ -54,6 +55,7 @@ type Interp struct {
 	path       *Path
 	syncState  map[syncKey]*syncObj
 	pools      map[syncKey]*poolState
+	smaps      map[syncKey]*smapState
 	ghost      map[string]Value
 	clock      *sym.Term // seconds, symbolic monotone
 	clockN     int
